@@ -57,14 +57,14 @@ func I(v int64) *Node {
 	}
 	return &Node{K: Nint, U: uint64(-1 - v)}
 }
-func NegArg(n uint64) *Node       { return &Node{K: Nint, U: n} }
-func Bstr(b []byte) *Node         { return &Node{K: Bytes, B: append([]byte{}, b...)} }
-func Tstr(s string) *Node         { return &Node{K: Text, B: []byte(s)} }
-func Arr(items ...*Node) *Node    { return &Node{K: Array, Items: items} }
-func MapOf(kv ...*Node) *Node     { return &Node{K: Map, Items: kv} }
+func NegArg(n uint64) *Node          { return &Node{K: Nint, U: n} }
+func Bstr(b []byte) *Node            { return &Node{K: Bytes, B: append([]byte{}, b...)} }
+func Tstr(s string) *Node            { return &Node{K: Text, B: []byte(s)} }
+func Arr(items ...*Node) *Node       { return &Node{K: Array, Items: items} }
+func MapOf(kv ...*Node) *Node        { return &Node{K: Map, Items: kv} }
 func Tagged(t uint64, c *Node) *Node { return &Node{K: Tag, U: t, Items: []*Node{c}} }
-func Null() *Node                 { return &Node{K: Simple, U: 22} }
-func Undef() *Node                { return &Node{K: Simple, U: 23} }
+func Null() *Node                    { return &Node{K: Simple, U: 22} }
+func Undef() *Node                   { return &Node{K: Simple, U: 23} }
 func Bool(b bool) *Node {
 	if b {
 		return &Node{K: Simple, U: 21}
